@@ -397,9 +397,17 @@ namespace adept {
 	// Perform line search, storing new state vector in x
 	ls_status = line_search(optimizable, x, direction,
 			       test_x, step_size, gradient, state_up_to_date,
-			       cg_curvature_coeff_, bound_step_size);
+			       cg_curvature_coeff_, bound_step_size,
+				&min_x, &max_x);
 	if (ls_status == MINIMIZER_STATUS_BOUND_REACHED) {
 	  bound_status(i_nearest_bound) = i_bound_type;
+	  // Place the variable exactly on its bound: rounding of the
+	  // step can leave it marginally inside
+	  Real x_bound = i_bound_type > 0 ? max_x(i_nearest_bound) : min_x(i_nearest_bound);
+	  if (x(i_nearest_bound) != x_bound) {
+	    x(i_nearest_bound) = x_bound;
+	    state_up_to_date = -1;
+	  }
 	  do_restart = true;
 	  ls_status = MINIMIZER_STATUS_SUCCESS;
 	}
@@ -409,6 +417,15 @@ namespace adept {
 	ls_status = line_search(optimizable, x, direction,
 				test_x, step_size, gradient, state_up_to_date,
 				cg_curvature_coeff_);
+      }
+
+      // More than one variable can reach its bound in the same step:
+      // record them all, and restart as when a single bound is met
+      if (any((x >= max_x && bound_status != 1)
+	      || (x <= min_x && bound_status != -1))) {
+	bound_status.where(x >= max_x) =  1;
+	bound_status.where(x <= min_x) = -1;
+	do_restart = true;
       }
 
       if (ls_status == MINIMIZER_STATUS_SUCCESS) {
